@@ -57,6 +57,7 @@ var commands = map[string]command{
 	"identifiers-replay":  identifiersReplay,
 	"clientapi-replay":    clientapiReplay,
 	"clientdoc-replay":    clientdocReplay,
+	"builders-replay":     buildersReplay,
 	"docaccess-replay":    docaccessReplay,
 	"sizelimits-replay":   sizeLimitsReplay,
 	"clientsend-replay":   clientsendReplay,
